@@ -58,13 +58,7 @@ func runPermGroup(sc *gScen, k, natural int, tags []string, w *hx.Writer) {
 		}
 	}
 	if okCount != 0 && okCount != len(runs) && len(ties) == 0 {
-		stale := false
-		for _, r := range runs {
-			if strings.Contains(r.errText, "has been wrapped") {
-				stale = true
-			}
-		}
-		if hasAfterSub && stale {
+		if hasAfterSub {
 			add("c10-d6-init-substitute-on-cycle", "start-up succeeds under %d of %d enumeration orders: a component on a cycle is substituted at initialisation and the stale-version check depends on where the cycle is entered", okCount, len(runs))
 		} else {
 			var sts []string
